@@ -58,10 +58,15 @@ def override_value(key, default, rng):
     return default
 
 
-def construct(D, user, rng_seed=0):
+def construct(D, user, rng_seed=0, geom="linear", row=False):
     from pybads import BADS
     x0 = np.linspace(0.1, 0.5, D)
     lb, ub, plb, pub = np.full(D, -5.0), np.full(D, 5.0), np.full(D, -2.0), np.full(D, 2.0)
+    if geom == "log":          # every second coordinate positive over more than a decade: log-transformed internally
+        for i in range(0, D, 2):
+            lb[i], ub[i], plb[i], pub[i] = 1e-3, 10.0, 0.05, 5.0
+    if row:
+        x0, lb, ub, plb, pub = (np.atleast_2d(a) for a in (x0, lb, ub, plb, pub))
     keep = {"x0": x0.copy(), "lb": lb.copy(), "ub": ub.copy(), "plb": plb.copy(), "pub": pub.copy()}
     ucopy = copy.deepcopy({k: v for k, v in user.items() if not callable(v)})
     b = BADS(lambda x: float(np.sum(np.asarray(x) ** 2)), x0, lb, ub, plb, pub, options=user)
@@ -101,7 +106,7 @@ def run(ctx):
             user["uncertainty_handling"] = True
         case = {"kind": "options", "D": D, "user_keys": sorted(user)}
         try:
-            b, mutated, dict_changed = construct(D, user)
+            b, mutated, dict_changed = construct(D, user, geom=rng.choice(["linear", "log", "log"]), row=rng.random() < 0.5)
         except Exception as ex:
             rep.disagree("Opt.load ~ BADS.__init__", f"construction with overrides {sorted(user)} raised {type(ex).__name__}: {str(ex)[:80]}", case)
             continue
